@@ -3,11 +3,12 @@ package main
 // Hashes, signatures and other crypto primitives as uninterpreted functions / contract stubs.
 
 import (
-	"go/types"
+	"crypto/ed25519"
 	"crypto/md5"
 	"crypto/sha1"
 	"crypto/sha256"
 	"fmt"
+	"go/types"
 
 	"golang.org/x/tools/go/ssa"
 )
@@ -83,15 +84,52 @@ func registerCrypto(P *Program) {
 	// Verify(pub(sk), m, Sign(sk,m)) (asserted when Sign is called).
 	r("crypto/ed25519.Verify", func(in *Interp, caller *frame, fn *ssa.Function, args []Value) Value {
 		pk, msg, sig := args[0].(SliceV), args[1].(SliceV), args[2].(SliceV)
+		pkb, ok1 := concBytes(pk)
+		mb, ok2 := concBytes(msg)
+		sb, ok3 := concBytes(sig)
+		if ok1 && ok2 && ok3 {
+			if len(pkb) != ed25519.PublicKeySize {
+				panic(&goPanic{msg: "ed25519: bad public key length", stack: in.stack()})
+			}
+			return in.ts.Bool(ed25519.Verify(pkb, mb, sb))
+		}
+		if ok1 && len(pkb) != ed25519.PublicKeySize {
+			panic(&goPanic{msg: "ed25519: bad public key length", stack: in.stack()})
+		}
 		return in.ts.App("ed25519.verify", BoolSort, in.sliceStr(pk), in.sliceStr(msg), in.sliceStr(sig))
 	})
 	r("crypto/ed25519.Sign", func(in *Interp, caller *frame, fn *ssa.Function, args []Value) Value {
 		sk, msg := args[0].(SliceV), args[1].(SliceV)
+		skb, ok1 := concBytes(sk)
+		mb, ok2 := concBytes(msg)
+		if ok1 && ok2 && len(skb) == ed25519.PrivateKeySize {
+			return in.mkBytes(ed25519.Sign(skb, mb))
+		}
 		skS, msgS := in.sliceStr(sk), in.sliceStr(msg)
 		sig := in.ts.App("ed25519.sign", StrSort, skS, msgS)
-		in.addPC(in.ts.Eq(in.ts.SLen(sig), in.ts.Int(64)))
-		in.addPC(in.ts.App("ed25519.verify", BoolSort, in.ts.App("ed25519.pub", StrSort, skS), msgS, sig))
+		var pub *Term
+		if ok1 && len(skb) == ed25519.PrivateKeySize {
+			pub = in.ts.Str(string(skb[32:]))
+		} else {
+			pub = in.ts.App("ed25519.pub", StrSort, skS)
+		}
+		in.addPC(in.ts.App("ed25519.verify", BoolSort, pub, msgS, sig))
 		return SliceV{Blob: in.strBlob(sig)}
+	})
+	r("crypto/ed25519.NewKeyFromSeed", func(in *Interp, caller *frame, fn *ssa.Function, args []Value) Value {
+		seed, ok := concBytes(args[0].(SliceV))
+		if !ok || len(seed) != ed25519.SeedSize {
+			panic(unsupported("ed25519.NewKeyFromSeed with symbolic seed"))
+		}
+		return in.mkBytes(ed25519.NewKeyFromSeed(seed))
+	})
+	r("(crypto/ed25519.PrivateKey).Public", func(in *Interp, caller *frame, fn *ssa.Function, args []Value) Value {
+		sk, ok := concBytes(args[0].(SliceV))
+		if !ok || len(sk) != ed25519.PrivateKeySize {
+			panic(unsupported("PrivateKey.Public symbolic"))
+		}
+		t := in.P.namedType("crypto/ed25519", "PublicKey")
+		return Iface{T: t, V: in.mkBytes(sk[32:])}
 	})
 	r("(crypto/ed25519.PublicKey).Equal", func(in *Interp, caller *frame, fn *ssa.Function, args []Value) Value {
 		x := args[0].(SliceV)
@@ -134,7 +172,6 @@ func registerCrypto(P *Program) {
 		}
 		in.injUFs["uuidstr"] = true
 		u := in.ts.App("uuidstr", StrSort, in.ts.SConcat(parts...))
-		in.addPC(in.ts.Eq(in.ts.SLen(u), in.ts.Int(36)))
 		return u
 	})
 }
